@@ -181,8 +181,19 @@ class CoderState(object):
         """
         Must be called before the descriptor is processed
         """
-        idx_descriptor, _ = self.next_bitmapped_descriptor()
+        idx_descriptor, _ = self.get_next_bitmapped_descriptor()
         self.bitmap_links[len(self.decoded_descriptors)] = idx_descriptor
+
+    def get_next_bitmapped_descriptor(self):
+        """
+        Get the next (index, descriptor) pair selected by the current bitmap.
+        """
+        if self.next_bitmapped_descriptor is None:
+            raise PyBufrKitError('No bitmap is defined for bitmapped descriptor')
+        try:
+            return self.next_bitmapped_descriptor()
+        except StopIteration:
+            raise PyBufrKitError('No more descriptor is available from the bitmap')
 
     def get_value_for_delayed_replication_factor(self, idx):
         if self.is_compressed:
@@ -631,7 +642,7 @@ class Coder(object):
         uncompressed and compressed data.
         """
 
-        idx_descriptor, bitmapped_descriptor = state.next_bitmapped_descriptor()
+        idx_descriptor, bitmapped_descriptor = state.get_next_bitmapped_descriptor()
         state.bitmap_links[len(state.decoded_descriptors)] = idx_descriptor
 
         # difference statistical values marker has different refval and nbits values
